@@ -61,6 +61,7 @@ def gen_params(rng, variant=None):
         {"prod": "P", "assets": "A", "shots": "S", "output": "O", "export": "E", "renders": "R"}])
     p["mapping_style"] = "demo" if ident else rng.choice(["demo", "identity", "swap", "demo", "partial"])
     p["leaf_per_basetype"] = False if ident else rng.random() < 0.5
+    p["kp_universal_last"] = False if ident else rng.random() < 0.4
     p["dotdot_root"] = False         # (set by the C20 stratification: the configured root folder is spelled with a '..' component)
     p["prefix_vocab"] = False        # (set by the C20 stratification only: a closed vocabulary with 'x' and 'x<sep>big' - see known finding resolva_repeated_placeholder)
     p["derived_configs"] = False if ident else rng.random() < 0.4      # secondary path configurations derived from the main module ("import *")
@@ -166,6 +167,9 @@ def build(p):
         S + "__": {"{%s}" % K["task"]: "{%s:%s}" % (K["task"], _alt(p["shot_tasks"]))},
         "edit__": {"{%s}" % K["task"]: "{%s:%s}" % (K["task"], _alt(p["shot_tasks"]))},
     }
+    if p.get("kp_universal_last"):
+        # the order of the selectors is the configuration's choice (it must not decide the order of the TYPES): shots first, '' last
+        kp = {k: kp[k] for k in sorted(kp, key=lambda x: (x == "", x != S + "__", x))}
     alias = {}
     if "maya" in p["scenes"]:
         alias["maya"] = [x for x in ("ma", "mb") if x in p["scenes"]]
